@@ -107,8 +107,8 @@ def generate(files, rnd, style=None):
     out = bytearray()
     for f in files:
         gaps = rnd.random() < 0.4
-        blank = rnd.choice([0, 0, 1, 5, 128, 300])
-        out += bytes(blank) + b"\x55" * rnd.choice([1, 2, 7, 128, 255, 300])
+        blank = rnd.choice([0, 0, 1, 5, 128, 300, 700])
+        out += bytes(blank) + b"\x55" * rnd.choice([1, 2, 7, 128, 255, 300, 511, 600, 1500])
         hdr = bytes(f["name"]) + bytes([f["ftype"], f["dtype"], 0xFF if gaps else 0x00, f["load"] >> 8, f["load"] & 255,
                                         f["exec"] >> 8, f["exec"] & 255])
         out += mk_block(0x00, hdr)
